@@ -7,6 +7,10 @@
 #[verifier::external_body] pub struct Span { _s: usize }
 #[verifier::external_body] pub struct AstSymbol { _s: usize }
 pub struct Production { pub symbols: Vec<AstSymbol> }
+// how many of a production's symbols are tokens
+pub uninterp spec fn ntoks(s: Seq<AstSymbol>) -> nat;
+// dialect rule 5: `v.iter().filter(|sym| matches!(sym, ast::Symbol::Token(..))).count()`
+#[verifier::external_body] pub fn count_tokens(v: &Vec<AstSymbol>) -> (r: usize) ensures r == ntoks(v@), r <= v@.len(), v@.len() <= usize::MAX / 8 { unimplemented!() }
 #[verifier::external_body] pub struct RulesMap { _s: usize }     // IndexMap<String, Rule>
 #[verifier::external_body] pub struct TokSet { _s: usize }       // IndexSet<String>
 #[verifier::external_body] pub struct SpanMap { _s: usize }      // HashMap<String, Span>
@@ -44,6 +48,9 @@ pub open spec fn final_prods(v: &ASTWithValidityInfo) -> nat {
     v.sast().prods@.len() + (if eco_implicit(v) { v.sast().implicit_tokens.unwrap().n() + 3 } else { 1nat })
 }
 
+// a production's final length: in Eco grammars with implicit tokens the implicit rule follows every token
+pub open spec fn final_len(v: &ASTWithValidityInfo, syms: Seq<AstSymbol>) -> nat { syms.len() + (if eco_implicit(v) { ntoks(syms) } else { 0nat }) }
+
 // B1: the StorageT guards.  Postconditions are what the later casts need: the *final*
 // sizes fit (the property: no reported size or index ever wraps).
 fn guards(ast_validation: &ASTWithValidityInfo)
@@ -51,13 +58,15 @@ fn guards(ast_validation: &ASTWithValidityInfo)
         final_rules(ast_validation) <= $TMAX, // OBL: C20.guard_final_rule_count_fits
         final_tokens(ast_validation) <= $TMAX, // OBL: C20.guard_final_token_count_fits
         final_prods(ast_validation) <= $TMAX, // OBL: C20.guard_final_production_count_fits
-        forall|p: int| 0 <= p < ast_validation.sast().prods@.len() ==> (#[trigger] ast_validation.sast().prods@[p]).symbols@.len() <= $TMAX, // OBL: C20.guard_production_lengths_fit
+        forall|p: int| 0 <= p < ast_validation.sast().prods@.len() ==> final_len(ast_validation, (#[trigger] ast_validation.sast().prods@[p]).symbols@) <= $TMAX, // OBL: C20.guard_production_lengths_fit
 {
     //@probe
     //@body file=cfgrammar/src/lib/yacc/grammar.rs fn=new_from_ast_with_validity_info block=`let ast = ast_validation\.ast\(\);` endx=`let mut rule_names: Vec<`
+    //@rule n=1 `p\.symbols\s*\.iter\(\)\s*\.filter\(\|sym\| matches!\(sym, ast::Symbol::Token\(\.\.\)\)\)\s*\.count\(\)` => `count_tokens(&p.symbols)`
     //@rule n=1 `^(\s*)for p in &ast\.prods \{$` =>>
         for pi_ in 0..ast.prods.len()
-            invariant forall|p: int| 0 <= p < pi_ ==> (#[trigger] ast.prods@[p]).symbols@.len() <= $TMAX,
+            invariant implicit_after_tokens == eco_implicit(ast_validation), ast == ast_validation.sast(),
+                forall|p: int| 0 <= p < pi_ ==> final_len(ast_validation, (#[trigger] ast.prods@[p]).symbols@) <= $TMAX,
         {
             //@probe
             let p = &ast.prods[pi_];
@@ -113,7 +122,7 @@ fn final_sizes(rule_names: &Vec<(StrBuf, Span)>, token_names: &Vec<Option<(Span,
 // accessors that narrow
 pub struct G { pub prods: Vec<Vec<Symbol<$T>>>, pub prods_len: PIdx<$T> }
 impl G {
-    //@ctx prod_len: every production of a constructed grammar has at most StorageT::MAX symbols (guards; Eco adds one rule symbol per token symbol: not covered by the guard, see clauses_not_decided)
+    //@ctx prod_len: every production of a constructed grammar has at most StorageT::MAX symbols (guards: the AST length plus, in Eco grammars with implicit tokens, one rule symbol per token symbol)
     pub fn prod_len(&self, pidx: PIdx<$T>) -> (r: SIdx<$T>)
         requires (pidx.0 as nat) < self.prods@.len(), self.prods@[pidx.0 as int]@.len() <= $TMAX,
         ensures r.0 == self.prods@[pidx.0 as int]@.len(), // OBL: C20.prod_len_is_symbol_count
@@ -123,5 +132,4 @@ impl G {
         //@endbody
     }
 }
-//@undecided Eco grammars: a production of n token symbols gets n extra rule symbols; the per-production guard compares the AST length only
 //@use prelude/tail.rs
